@@ -106,6 +106,31 @@ pub fn run(args: &[&str]) -> Option<String> {
             Some(format!("errs={} {}", p.errors().len(), out))
         }
         ["lossless", h] => Some(lossless(&unhex(h)?)),
+        ["defs", h] => {
+            // top-level children of the file with their ranges, and the error ranges
+            let src = unhex(h)?;
+            let p = syntax::parse_module(&src);
+            let mut v = Vec::new();
+            for c in p.syntax_node().children() {
+                let r = c.text_range();
+                v.push(format!("{:?}:{}-{}", c.kind(), u32::from(r.start()), u32::from(r.end())));
+            }
+            let e: Vec<String> = p.errors().iter().map(|e| format!("{}-{}", u32::from(e.range.start()), u32::from(e.range.end()))).collect();
+            Some(format!("{} | {}", v.join(";"), e.join(";")))
+        }
+        ["ancestors", h, off] => {
+            let src = unhex(h)?;
+            let off: u32 = off.parse().ok()?;
+            let p = syntax::parse_module(&src);
+            let root = p.syntax_node();
+            let tok = match root.token_at_offset(off.into()) {
+                rowan::TokenAtOffset::None => return Some("none".into()),
+                rowan::TokenAtOffset::Single(t) => t,
+                rowan::TokenAtOffset::Between(_, r) => r,
+            };
+            let ks: Vec<String> = tok.parent_ancestors().map(|n| format!("{:?}", n.kind())).collect();
+            Some(format!("{:?} {}", tok.kind(), ks.join("/")))
+        }
         ["lex", h] => {
             let src = unhex(h)?;
             let v: Vec<String> = GleamLexer::new(&src)
